@@ -7,6 +7,7 @@ From KV Require Import Lib.Bits Lib.Bytes Lib.Varint Model.MsgSetReader Model.Re
   Proofs.ReaderPrim Proofs.ReaderV2.
 Import ListNotations.
 Open Scope Z_scope.
+Set Default Timeout 20.
 
 Section Run.
 Variable compress : Z -> list N -> list N.
@@ -147,8 +148,9 @@ Proof.
     unfold st, set_stack, set_rd, stp. cbn [m_stack m_empty m_lrem m_elast fst snd f_in f_remain f_base f_count f_hdr].
     repeat f_equal; lia. }
   fold (vhdr b (plen_of b)). fold (hdr_of b). rewrite Hprep. clear Hprep.
-  replace (erecs b (pb_recs b)) with (enc_record (pb_base b) (pb_ts b) r ++ erecs b rs')
-    by (unfold erecs; rewrite Hrecs; reflexivity).
+  assert (He : erecs b (pb_recs b) = enc_record (pb_base b) (pb_ts b) r ++ erecs b rs')
+    by (rewrite Hrecs; reflexivity).
+  rewrite He.
   unfold hdr_of, vhdr.
   rewrite record_ok_g; try assumption; try lia.
   rewrite len_app.
@@ -168,7 +170,7 @@ Proof.
   rewrite top_st. cbn [f_hdr hdr_of vhdr h_magic]. cbn [Z.eqb Pos.eqb orb].
   unfold bind at 1. unfold read_v2. unfold bind at 1. rewrite read_header_busy by exact Hn.
   rewrite top_st. unfold bind at 1.
-  unfold read_v2_prepare. cbv zeta. cbn [f_count f_hdr f_remain h_count]. rewrite Z.eqb_refl.
+  unfold read_v2_prepare. cbv zeta. unfold hdr_of, vhdr. cbn [f_count f_hdr f_remain h_count]. rewrite Z.eqb_refl.
   unfold bind at 1. unfold codec_of. cbn [h_magic h_attr h_length]. cbn [Z.eqb Pos.eqb orb].
   rewrite land7 by lia. replace (pb_codec b =? 0) with false by lia.
   replace ((1 <=? pb_codec b) && (pb_codec b <=? 4)) with true by lia. unfold ret at 1.
@@ -193,22 +195,28 @@ Proof.
 Qed.
 
 (* ---------------------------------------------------------------- the encoding of a response *)
-Definition enc1 (b : pbatch) : list N :=
-  hdr61 b (plen_of b) ++ enc_records (pb_base b) (pb_ts b) (pb_recs b).
+Definition enc1 (b : pbatch) : list N := hdr61 b (plen_of b) ++ payload b.
 Definition encs (bs : list pbatch) : list N := flat_map enc1 bs.
-Lemma enc1_eq compress b : pb_fmt b = 2 -> pb_codec b = 0 -> enc_batch compress b = enc1 b.
+
+Lemma enc1_eq b : pb_fmt b = 2 -> enc_batch compress b = enc1 b.
 Proof.
-  intros Hf Hc. unfold enc_batch, enc_v2, enc1, hdr61, plen_of. rewrite Hf, Hc. cbn [Z.eqb Pos.eqb].
+  intros Hf. unfold enc_batch, enc_v2, enc1, hdr61, plen_of, payload, erecs. rewrite Hf. cbn [Z.eqb Pos.eqb].
   rewrite <- !app_assoc. reflexivity.
 Qed.
 
 (* ---------------------------------------------------------------- the abstract reader *)
-(* position: inside batch b with records rs left, then the batches bs; j bytes of
-   erecs b rs ++ encs bs are present *)
+(* MPlain: records read from the response itself; MPending: the header of a compressed batch was
+   read, its payload not yet; MInside: records read from the decompressed payload *)
+Inductive amode := MPlain | MPending | MInside.
+
+(* position: inside batch b with records rs left, then the batches bs.  MPlain: j bytes of
+   erecs b rs ++ encs bs are present; MPending: j bytes of payload b ++ encs bs; MInside: the
+   records are all there and j - len (erecs b rs) bytes of encs bs *)
 Record apos := mkPos {
   a_b : pbatch; a_rs : list record; a_bs : list pbatch; a_j : Z;
   a_hdr : hdr;        (* the header in the frame (that of b while records are left) *)
-  a_off : Z; a_last : Z; a_el : Z
+  a_off : Z; a_last : Z; a_el : Z; a_mode : amode;
+  a_lr : Z            (* lengthRemain at a batch boundary (0 after a v2 batch, 1 after a v0/v1 message) *)
 }.
 
 Definition eoff0 (off last el : Z) : Z :=
@@ -217,14 +225,19 @@ Definition eoff_in (off el : Z) : Z := if off <=? el then el + 1 else off.
 
 Inductive astep := ARec (r : record) (p : apos) | AEnd (f : Z).
 
-Definition rec_step (b : pbatch) (r : record) (rs' : list record) (bs : list pbatch) (j : Z) (off el : Z) : astep :=
+Definition rec_step (md : amode) (b : pbatch) (r : record) (rs' : list record) (bs : list pbatch) (j : Z) (off el : Z) : astep :=
   let L := len (enc_record (pb_base b) (pb_ts b) r) in
   if j <? L then AEnd (eoff_in off el)
   else
     let lo := pb_base b + pb_lod b in
     let off1 := if off <=? r_off r then r_off r + 1 else off in
     let off' := if (len (erecs b rs') =? 0) && (off1 <=? lo) then lo + 1 else off1 in
-    ARec r (mkPos b rs' bs (j - L) (hdr_of b) off' lo el).
+    ARec r (mkPos b rs' bs (j - L) (hdr_of b) off' lo el md 0).
+
+(* a compressed batch whose header was read, j bytes of payload b ++ encs bs present *)
+Definition cstep (b : pbatch) (r : record) (rs' : list record) (bs : list pbatch) (j : Z) (off el : Z) : astep :=
+  if j <? plen_of b then AEnd (eoff_in off el)
+  else rec_step MInside b r rs' bs (j - plen_of b + len (erecs b (r :: rs'))) off el.
 
 Fixpoint bstep (bs : list pbatch) (j off last el : Z) {struct bs} : astep :=
   match bs with
@@ -233,25 +246,51 @@ Fixpoint bstep (bs : list pbatch) (j off last el : Z) {struct bs} : astep :=
     if j <? 61 then AEnd (eoff0 off last el)
     else match pb_recs b with
          | [] => bstep bs' (j - 61) off last (pb_base b + pb_lod b)
-         | r :: rs' => rec_step b r rs' bs' (j - 61) off el
+         | r :: rs' => if pb_codec b =? 0 then rec_step MPlain b r rs' bs' (j - 61) off el
+                       else cstep b r rs' bs' (j - 61) off el
          end
   end.
 
 Definition step1 (p : apos) : astep :=
   match a_rs p with
-  | r :: rs' => rec_step (a_b p) r rs' (a_bs p) (a_j p) (a_off p) (a_el p)
+  | r :: rs' =>
+    match a_mode p with
+    | MPending => cstep (a_b p) r rs' (a_bs p) (a_j p) (a_off p) (a_el p)
+    | md => rec_step md (a_b p) r rs' (a_bs p) (a_j p) (a_off p) (a_el p)
+    end
   | [] => bstep (a_bs p) (a_j p) (a_off p) (a_last p) (a_el p)
   end.
 
-(* the concrete Batch at an abstract position *)
+(* the concrete messageSetReader at an abstract position *)
+Definition concm (p : apos) : msr :=
+  match a_mode p, a_rs p with
+  | MInside, _ :: _ =>
+    let P := ztake (a_j p - len (erecs (a_b p) (a_rs p))) (encs (a_bs p)) in
+    stp [mkFrame P (len P) 0 0 (hdr_of (a_b p))] (-1) (erecs (a_b p) (a_rs p))
+        (Z.of_nat (length (a_rs p))) (hdr_of (a_b p)) (len (erecs (a_b p) (a_rs p))) (a_el p)
+  | MPending, _ :: _ =>
+    st (ztake (a_j p) (payload (a_b p) ++ encs (a_bs p)))
+       (Z.of_nat (length (a_rs p))) (hdr_of (a_b p)) (plen_of (a_b p)) (a_el p)
+  | _, _ =>
+    st (ztake (a_j p) (erecs (a_b p) (a_rs p) ++ encs (a_bs p)))
+       (Z.of_nat (length (a_rs p))) (a_hdr p)
+       (match a_rs p with [] => a_lr p | _ => len (erecs (a_b p) (a_rs p)) end) (a_el p)
+  end.
+
 Definition conc (p : apos) : batch :=
-  mkBatch (Some (st (ztake (a_j p) (erecs (a_b p) (a_rs p) ++ encs (a_bs p)))
-                    (Z.of_nat (length (a_rs p))) (a_hdr p) (len (erecs (a_b p) (a_rs p))) (a_el p)))
-          true o (a_off p) (a_last p) None false.
+  mkBatch (Some (concm p)) true o (a_off p) (a_last p) None false.
 
 Definition pos_ok (p : apos) : Prop :=
   0 <= a_j p /\ Forall v2ok (a_bs p)
-  /\ (a_rs p <> [] -> v2ok (a_b p) /\ a_hdr p = hdr_of (a_b p) /\ incl (a_rs p) (pb_recs (a_b p))).
+  /\ (a_rs p = [] -> a_lr p = 0 \/ a_last p <= a_el p)
+  /\ (a_rs p <> [] ->
+      v2ok (a_b p) /\ a_hdr p = hdr_of (a_b p) /\ incl (a_rs p) (pb_recs (a_b p))
+      /\ match a_mode p with
+         | MPlain => pb_codec (a_b p) = 0
+         | MPending => pb_codec (a_b p) <> 0 /\ a_rs p = pb_recs (a_b p)
+         | MInside => pb_codec (a_b p) <> 0 /\ (length (a_rs p) < length (pb_recs (a_b p)))%nat
+                      /\ len (erecs (a_b p) (a_rs p)) <= a_j p
+         end).
 
 Definition tokens (rs : list record) (bs : list pbatch) : nat :=
   (length rs + fold_right (fun b n => S (length (pb_recs b)) + n) O bs)%nat.
@@ -293,10 +332,10 @@ Proof.
   pose proof (len_nonneg (enc_record_body base ts r)). lia.
 Qed.
 
-(* inside a batch *)
+(* inside an uncompressed batch *)
 Lemma b1_in fuel b r rs' bs j off last el :
-  v2ok b -> incl (r :: rs') (pb_recs b) -> 0 <= j ->
-  match rec_step b r rs' bs j off el with
+  v2ok b -> pb_codec b = 0 -> incl (r :: rs') (pb_recs b) -> 0 <= j ->
+  match rec_step MPlain b r rs' bs j off el with
   | ARec r0 p' =>
     batch_read1 decomp fuel
       (BSt (st (ztake j (erecs b (r :: rs') ++ encs bs)) (Z.of_nat (S (length rs'))) (hdr_of b)
@@ -307,7 +346,7 @@ Lemma b1_in fuel b r rs' bs j off last el :
                (len (erecs b (r :: rs'))) el) off last) = BErr EEOF b' /\ b_off b' = f
   end.
 Proof.
-  intros Hok Hincl Hj. unfold rec_step. cbv zeta.
+  intros Hok Hc0 Hincl Hj. unfold rec_step. cbv zeta.
   assert (Hin : In r (pb_recs b)) by (apply Hincl; left; reflexivity).
   set (E := enc_record (pb_base b) (pb_ts b) r).
   pose proof (enc_record_nonempty (pb_base b) (pb_ts b) r) as HE. fold E in HE.
@@ -316,18 +355,109 @@ Proof.
   - destruct (ztake_app_lt j E (erecs b rs' ++ encs bs)) as (H1 & H2 & H3); [lia|].
     rewrite H1.
     destruct (msr_read_rec_short fuel off b r (ztake j E) (zdrop j E) (Z.of_nat (S (length rs')))
-                (len (E ++ erecs b rs')) el Hok Hin ltac:(lia) H2 H3) as [i' Hi'].
+                (len (E ++ erecs b rs')) el Hok Hc0 Hin ltac:(lia) H2 H3) as [i' Hi'].
     destruct (b1_of_short fuel _ _ _ _ _ off last _ _ _ _ _ Hi') as (b' & Hb1 & Hb2).
     exists b'. split; [exact Hb1|]. rewrite Hb2. unfold eoff_in.
     rewrite len_app. pose proof (len_nonneg (erecs b rs')).
     replace (len E + len (erecs b rs') =? 0) with false by lia. reflexivity.
   - rewrite ztake_app_ge by lia.
     pose proof (msr_read_rec_ok fuel off b r (ztake (j - len E) (erecs b rs' ++ encs bs))
-                  (Z.of_nat (S (length rs'))) (len (E ++ erecs b rs')) el Hok Hin ltac:(lia)) as Hm.
+                  (Z.of_nat (S (length rs'))) (len (E ++ erecs b rs')) el Hok Hc0 Hin ltac:(lia)) as Hm.
     fold E in Hm. rewrite (b1_of_ok fuel _ off last _ _ _ Hm).
-    unfold conc, BSt. cbn [a_j a_b a_rs a_bs a_hdr a_el a_off a_last m_lrem st g_off msg_of].
+    unfold conc, concm, BSt. cbn [a_j a_b a_rs a_bs a_hdr a_el a_off a_last a_mode a_lr m_lrem st g_off msg_of].
     rewrite len_app. replace (len E + len (erecs b rs') - len E) with (len (erecs b rs')) by lia.
     replace (Z.of_nat (S (length rs')) - 1) with (Z.of_nat (length rs')) by lia.
+    destruct rs'; reflexivity.
+Qed.
+
+(* the state a decompressed record set is read from, and what it becomes after a record *)
+Definition inside_m (b : pbatch) (rs : list record) (bs : list pbatch) (j el : Z) : msr :=
+  let P := ztake (j - len (erecs b rs)) (encs bs) in
+  stp [mkFrame P (len P) 0 0 (hdr_of b)] (-1) (erecs b rs) (Z.of_nat (length rs)) (hdr_of b) (len (erecs b rs)) el.
+
+Lemma after_inside b r rs' bs j off' lo el :
+  let E := enc_record (pb_base b) (pb_ts b) r in
+  let P := ztake (j - (len E + len (erecs b rs'))) (encs bs) in
+  mkMsr (unwind (mkFrame (erecs b rs') (len (erecs b rs')) (-1) (Z.of_nat (length (r :: rs')) - 1) (hdr_of b)
+                 :: [mkFrame P (len P) 0 0 (hdr_of b)])) false (len (erecs b rs')) el
+  = concm (mkPos b rs' bs (j - len E) (hdr_of b) off' lo el MInside 0).
+Proof.
+  intros E P. unfold concm. cbn [a_mode a_rs a_b a_bs a_j a_hdr a_el a_lr].
+  replace (Z.of_nat (length (r :: rs')) - 1) with (Z.of_nat (length rs')) by (cbn [length]; lia).
+  destruct rs' as [|r2 t].
+  - change (erecs b []) with (@nil N) in *. change (len []) with 0 in *.
+    cbn [length Z.of_nat unwind f_count f_remain Z.eqb andb app].
+    unfold st. subst P. replace (j - (len E + 0)) with (j - len E) by lia. reflexivity.
+  - cbn [unwind f_count f_remain]. replace (Z.of_nat (length (r2 :: t)) =? 0) with false by (cbn [length]; lia).
+    cbn [andb]. unfold stp. subst P.
+    replace (j - len E - len (erecs b (r2 :: t))) with (j - (len E + len (erecs b (r2 :: t)))) by lia. reflexivity.
+Qed.
+
+(* inside a decompressed record set: never truncated *)
+Lemma b1_inside fuel b r rs' bs j off last el :
+  v2ok b -> pb_codec b <> 0 -> incl (r :: rs') (pb_recs b) ->
+  (length (r :: rs') < length (pb_recs b))%nat -> len (erecs b (r :: rs')) <= j ->
+  match rec_step MInside b r rs' bs j off el with
+  | ARec r0 p' => batch_read1 decomp fuel (BSt (inside_m b (r :: rs') bs j el) off last) = BMsg (msg_of r0) (conc p')
+  | AEnd f => False
+  end.
+Proof.
+  intros Hok Hc0 Hincl Hlen Hj. unfold rec_step. cbv zeta.
+  assert (Hin : In r (pb_recs b)) by (apply Hincl; left; reflexivity).
+  set (E := enc_record (pb_base b) (pb_ts b) r).
+  pose proof (len_nonneg (erecs b rs')) as Hn. rewrite erecs_cons, len_app in Hj. fold E in Hj.
+  replace (j <? len E) with false by lia.
+  unfold inside_m. cbv zeta. rewrite erecs_cons. fold E.
+  pose proof (msr_read_rec_ok_g fuel off b r (erecs b rs')
+                [mkFrame (ztake (j - len (E ++ erecs b rs')) (encs bs)) (len (ztake (j - len (E ++ erecs b rs')) (encs bs))) 0 0 (hdr_of b)]
+                (-1) (Z.of_nat (length (r :: rs'))) (len (E ++ erecs b rs')) el Hok Hin
+                ltac:(cbn [length]; lia) ltac:(right; lia)) as Hm.
+  fold E in Hm. rewrite (b1_of_ok fuel _ off last _ _ _ Hm).
+  unfold conc, BSt. cbn [a_off a_last g_off msg_of m_lrem].
+  rewrite len_app. replace (len E + len (erecs b rs') - len E) with (len (erecs b rs')) by lia.
+  f_equal. f_equal. f_equal. apply after_inside.
+Qed.
+
+(* a compressed batch whose header was read *)
+Lemma b1_pending fuel b r rs' bs j off last el :
+  v2ok b -> pb_codec b <> 0 -> pb_recs b = r :: rs' -> 0 <= j ->
+  match cstep b r rs' bs j off el with
+  | ARec r0 p' =>
+    batch_read1 decomp fuel
+      (BSt (st (ztake j (payload b ++ encs bs)) (Z.of_nat (length (pb_recs b))) (hdr_of b) (plen_of b) el) off last)
+    = BMsg (msg_of r0) (conc p')
+  | AEnd f =>
+    exists b', batch_read1 decomp fuel
+      (BSt (st (ztake j (payload b ++ encs bs)) (Z.of_nat (length (pb_recs b))) (hdr_of b) (plen_of b) el) off last)
+      = BErr EEOF b' /\ b_off b' = f
+  end.
+Proof.
+  intros Hok Hc0 Hrecs Hj. unfold cstep.
+  pose proof Hok as ((B1 & B2 & B3 & B4 & B5 & B6) & _).
+  destruct (j <? plen_of b) eqn:Ej.
+  - assert (Hq : len (ztake j (payload b ++ encs bs)) < plen_of b).
+    { unfold ztake, len. rewrite firstn_length. lia. }
+    pose proof (msr_read_enter_short fuel off b _ _ (plen_of b) el Hok Hc0 eq_refl Hq) as Hm.
+    destruct (b1_of_short fuel _ _ _ _ _ off last _ _ _ _ _ Hm) as (b' & Hb1 & Hb2).
+    exists b'. split; [exact Hb1|]. rewrite Hb2. unfold eoff_in.
+    replace (plen_of b =? 0) with false by lia. reflexivity.
+  - change (plen_of b) with (len (payload b)) in Ej |- * at 1.
+    rewrite ztake_app_ge by (unfold plen_of, blen, len in *; lia).
+    pose proof (msr_read_enter_comp fuel off b r rs' (ztake (j - len (payload b)) (encs bs)) (plen_of b) el Hok Hc0 Hrecs) as Hm.
+    unfold rec_step. cbv zeta.
+    set (E := enc_record (pb_base b) (pb_ts b) r).
+    pose proof (len_nonneg (erecs b rs')) as Hn.
+    match goal with |- context [if ?c then AEnd _ else ARec _ _] => assert (Hcnd : c = false) end.
+    { apply Z.ltb_ge. rewrite erecs_cons, len_app. fold E. unfold plen_of, blen, len in *. lia. }
+    rewrite Hcnd. rewrite erecs_cons, len_app. fold E.
+    rewrite (b1_of_ok fuel _ off last _ _ _ Hm).
+    unfold conc, BSt. cbn [a_off a_last g_off msg_of m_lrem].
+    f_equal. f_equal. f_equal.
+    rewrite Hrecs.
+    etransitivity; [|apply (after_inside b r rs' bs (j - plen_of b + (len E + len (erecs b rs'))))].
+    cbv zeta. fold E.
+    replace (j - plen_of b + (len E + len (erecs b rs')) - (len E + len (erecs b rs'))) with (j - len (payload b))
+      by (unfold plen_of, blen, len; lia).
     reflexivity.
 Qed.
 
@@ -358,51 +488,56 @@ Lemma tokens_cons_batch b bs : tokens [] (b :: bs) = S (tokens (pb_recs b) bs).
 Proof. unfold tokens. cbn [length fold_right]. lia. Qed.
 
 (* at a batch boundary: skip record-less batches, land on the first batch with records *)
-Lemma loop_bnd : forall bs j hdr el fuel,
+Lemma loop_bnd : forall bs j hdr lr el fuel,
   Forall v2ok bs -> 0 <= j -> (length bs < fuel)%nat ->
-  (exists i' hdr' el',
-      read_header_loop fuel (st (ztake j (encs bs)) 0 hdr 0 el) = MErr EShort (st i' 0 hdr' 0 el')
+  (exists i' hdr' lr' el',
+      read_header_loop fuel (st (ztake j (encs bs)) 0 hdr lr el) = MErr EShort (st i' 0 hdr' lr' el')
+      /\ (lr' = 0 \/ (lr' = lr /\ el' = el))
       /\ forall off last, bstep bs j off last el = AEnd (eoff0 off last el'))
   \/ (exists b r rs' bs' j' el',
       v2ok b /\ pb_recs b = r :: rs' /\ 0 <= j' /\ Forall v2ok bs'
-      /\ read_header_loop fuel (st (ztake j (encs bs)) 0 hdr 0 el)
-         = MOk tt (st (ztake j' (erecs b (r :: rs') ++ encs bs')) (Z.of_nat (S (length rs'))) (hdr_of b)
-                      (len (erecs b (r :: rs'))) el')
-      /\ (forall off last, bstep bs j off last el = rec_step b r rs' bs' j' off el')
+      /\ read_header_loop fuel (st (ztake j (encs bs)) 0 hdr lr el)
+         = MOk tt (st (ztake j' (payload b ++ encs bs')) (Z.of_nat (length (pb_recs b))) (hdr_of b)
+                      (plen_of b) el')
+      /\ (forall off last, bstep bs j off last el
+            = if pb_codec b =? 0 then rec_step MPlain b r rs' bs' j' off el' else cstep b r rs' bs' j' off el')
       /\ (S (tokens (r :: rs') bs') <= tokens [] bs)%nat /\ (length bs' < length bs)%nat).
 Proof.
-  induction bs as [|b bs' IH]; intros j hdr el fuel Hok Hj Hfuel.
+  induction bs as [|b bs' IH]; intros j hdr lr el fuel Hok Hj Hfuel.
   - left. destruct fuel as [|f]; [cbn in Hfuel; lia|].
-    exists [], hdr, el. split; [|reflexivity].
+    exists [], hdr, lr, el. split; [|split; [right; auto|reflexivity]].
     cbn [encs flat_map]. unfold ztake. rewrite firstn_nil. reflexivity.
   - destruct fuel as [|f]; [cbn in Hfuel; lia|]. cbn [length] in Hfuel.
     apply Forall_cons_iff in Hok as [Hb Hbs'].
-    pose proof Hb as (Hc0 & Hfit & Hrf & Hrb).
+    pose proof Hb as (Hfit & Hrf & Hrb & Hne).
     cbn [encs flat_map]. fold (encs bs'). unfold enc1. rewrite <- app_assoc.
     pose proof (hdr61_len b (plen_of b)) as H61.
     cbn [bstep].
     destruct (j <? 61) eqn:Ej.
     + left.
-      destruct (ztake_app_lt j (hdr61 b (plen_of b)) (enc_records (pb_base b) (pb_ts b) (pb_recs b) ++ encs bs')) as (H1 & H2 & H3); [lia|].
+      destruct (ztake_app_lt j (hdr61 b (plen_of b)) (payload b ++ encs bs')) as (H1 & H2 & H3); [lia|].
       rewrite H1.
-      destruct (loop_step_short f b _ _ 0 hdr 0 el Hfit H2 H3) as [i' Hi'].
-      exists i', hdr, el. split; [exact Hi'|reflexivity].
+      destruct (loop_step_short f b _ _ 0 hdr lr el Hfit H2 H3) as [i' Hi'].
+      exists i', hdr, lr, el. split; [exact Hi'|split; [right; auto|reflexivity]].
     + rewrite ztake_app_ge by lia. rewrite H61.
-      rewrite (loop_step_ok f b _ 0 hdr 0 el Hfit).
+      rewrite (loop_step_ok f b _ 0 hdr lr el Hfit).
       destruct (pb_recs b) as [|r rs'] eqn:Erecs.
       * change (Z.of_nat (length (@nil record)) =? 0) with true. cbv iota.
-        assert (Hp : plen_of b = 0) by (unfold plen_of; rewrite Erecs; reflexivity).
-        rewrite Hp. cbn [enc_records flat_map app].
-        destruct (IH (j - 61) (hdr_of b) (pb_base b + pb_lod b) f Hbs' ltac:(lia) ltac:(lia))
-          as [(i' & hdr' & el' & H1 & H2)|(b2 & r2 & rs2 & bs2 & j2 & el2 & K1 & K2 & K3 & K4 & K5 & K6 & K7 & K8)].
-        -- left. exists i', hdr', el'. split; [exact H1|exact H2].
+        assert (Hc0 : pb_codec b = 0).
+        { destruct (Z.eq_dec (pb_codec b) 0) as [E|E]; [exact E|]. exfalso. apply (Hne E). reflexivity. }
+        assert (Hpl : payload b = []) by (unfold payload, erecs; rewrite Hc0, Erecs; reflexivity).
+        assert (Hp : plen_of b = 0) by (unfold plen_of; rewrite Hpl; reflexivity).
+        rewrite Hp, Hpl. cbn [app].
+        destruct (IH (j - 61) (hdr_of b) 0 (pb_base b + pb_lod b) f Hbs' ltac:(lia) ltac:(lia))
+          as [(i' & hdr' & lr' & el' & H1 & H1' & H2)|(b2 & r2 & rs2 & bs2 & j2 & el2 & K1 & K2 & K3 & K4 & K5 & K6 & K7 & K8)].
+        -- left. exists i', hdr', lr', el'. split; [exact H1|]. split; [left; destruct H1' as [E|[E _]]; exact E|exact H2].
         -- right. exists b2, r2, rs2, bs2, j2, el2. split; [exact K1|]. split; [exact K2|]. split; [exact K3|]. split; [exact K4|]. split; [exact K5|]. split; [exact K6|].
            rewrite tokens_cons_batch, Erecs. cbn [length]. unfold tokens in *. cbn [length] in *. lia.
       * right. exists b, r, rs', bs', (j - 61), el.
         split; [exact Hb|]. split; [exact Erecs|]. split; [lia|]. split; [exact Hbs'|].
         split; [|split; [reflexivity|rewrite tokens_cons_batch, Erecs; cbn [length]; lia]].
         replace (Z.of_nat (length (r :: rs')) =? 0) with false by (cbn [length]; lia).
-        f_equal. unfold plen_of, erecs. rewrite Erecs. cbn [length]. rewrite blen_len. reflexivity.
+        rewrite Erecs. reflexivity.
 Qed.
 
 Lemma bind_same {A B} (a : M A) (k : A -> M B) m1 m2 v m :
@@ -436,21 +571,52 @@ Lemma b1_same_msr fuel m1 m2 off last :
   batch_read1 decomp fuel (BSt m1 off last) = batch_read1 decomp fuel (BSt m2 off last).
 Proof. intros H. unfold batch_read1, BSt. cbn [b_err b_msgs b_off]. rewrite H. reflexivity. Qed.
 
-Lemma rec_step_inv b r rs' bs j off el r0 p' :
-  rec_step b r rs' bs j off el = ARec r0 p' ->
+Lemma rec_step_inv md b r rs' bs j off el r0 p' :
+  rec_step md b r rs' bs j off el = ARec r0 p' ->
   r0 = r /\ a_b p' = b /\ a_rs p' = rs' /\ a_bs p' = bs /\ a_hdr p' = hdr_of b /\ a_el p' = el
   /\ a_j p' = j - len (enc_record (pb_base b) (pb_ts b) r) /\ len (enc_record (pb_base b) (pb_ts b) r) <= j
   /\ a_last p' = pb_base b + pb_lod b
   /\ a_off p' = (let off1 := if off <=? r_off r then r_off r + 1 else off in
-                 if (len (erecs b rs') =? 0) && (off1 <=? pb_base b + pb_lod b) then pb_base b + pb_lod b + 1 else off1).
+                 if (len (erecs b rs') =? 0) && (off1 <=? pb_base b + pb_lod b) then pb_base b + pb_lod b + 1 else off1)
+  /\ a_mode p' = md.
 Proof.
   unfold rec_step. cbv zeta. destruct (j <? len (enc_record (pb_base b) (pb_ts b) r)) eqn:E; [discriminate|].
-  intros H. injection H as <- <-. cbn [a_b a_rs a_bs a_j a_hdr a_off a_last a_el]. repeat split; try reflexivity; lia.
+  intros H. injection H as <- <-. cbn [a_b a_rs a_bs a_j a_hdr a_off a_last a_el a_mode]. repeat split; try reflexivity; lia.
 Qed.
-
 
 Lemma incl_tail {A} (x : A) l l' : incl (x :: l) l' -> incl l l'.
 Proof. intros H y Hy. apply H. right. exact Hy. Qed.
+
+Lemma cstep_inv b r rs' bs j off el r0 p' :
+  cstep b r rs' bs j off el = ARec r0 p' ->
+  plen_of b <= j /\ rec_step MInside b r rs' bs (j - plen_of b + len (erecs b (r :: rs'))) off el = ARec r0 p'.
+Proof. unfold cstep. destruct (j <? plen_of b) eqn:E; [discriminate|]. intros H. split; [lia|exact H]. Qed.
+
+(* what a position reached by reading record r of batch b satisfies *)
+Lemma pos_ok_after md b r rs' bs j off el r0 p' :
+  v2ok b -> incl (r :: rs') (pb_recs b) -> Forall v2ok bs ->
+  match md with
+  | MPlain => pb_codec b = 0
+  | MPending => False
+  | MInside => pb_codec b <> 0 /\ (length (r :: rs') <= length (pb_recs b))%nat /\ len (erecs b (r :: rs')) <= j
+  end ->
+  rec_step md b r rs' bs j off el = ARec r0 p' ->
+  pos_ok p' /\ (tokens (a_rs p') (a_bs p') < tokens (r :: rs') bs)%nat /\ (length (a_bs p') <= length bs)%nat.
+Proof.
+  intros Hok Hincl Hbs Hmd Hs.
+  destruct (rec_step_inv _ _ _ _ _ _ _ _ _ _ Hs) as (E0 & E1 & E2 & E3 & E4 & E5 & E6 & E7 & E8 & E9 & E10).
+  split; [|split].
+  - assert (E11 : a_lr p' = 0).
+    { unfold rec_step in Hs. cbv zeta in Hs. destruct (_ <? _) in Hs; [discriminate|]. injection Hs as _ <-. reflexivity. }
+    unfold pos_ok. rewrite E1, E2, E3, E4, E6, E10, E11. split; [lia|]. split; [exact Hbs|].
+    split; [intros _; left; reflexivity|].
+    intros _. split; [exact Hok|]. split; [reflexivity|]. split; [apply (incl_tail r); exact Hincl|].
+    destruct md; [exact Hmd|contradiction|].
+    destruct Hmd as (H1 & H2 & H3). split; [exact H1|]. split; [cbn [length] in H2; lia|].
+    rewrite erecs_cons, len_app in H3. lia.
+  - rewrite E2, E3. rewrite tokens_cons_rec. lia.
+  - rewrite E3. lia.
+Qed.
 
 (* one call of Batch.readMessage at an abstract position *)
 Lemma b1_step p fuel : pos_ok p -> (length (a_bs p) < fuel)%nat ->
@@ -461,47 +627,87 @@ Lemma b1_step p fuel : pos_ok p -> (length (a_bs p) < fuel)%nat ->
   | AEnd f => exists b', batch_read1 decomp fuel (conc p) = BErr EEOF b' /\ b_off b' = f
   end.
 Proof.
-  intros (Hj & Hbs & Hin) Hfuel. unfold step1.
-  destruct p as [b rs bs j hdr off last el]. cbn [a_b a_rs a_bs a_j a_hdr a_off a_last a_el] in *.
+  intros (Hj & Hbs & Hlr & Hin) Hfuel. unfold step1.
+  destruct p as [b rs bs j hdr off last el md lr]. cbn [a_b a_rs a_bs a_j a_hdr a_off a_last a_el a_mode a_lr] in *.
   destruct rs as [|r rs'].
   - (* at a batch boundary *)
-    unfold conc. cbn [a_b a_rs a_bs a_j a_hdr a_off a_last a_el length Z.of_nat].
-    change (erecs b []) with (@nil N). cbn [app]. change (len []) with 0.
-    fold (BSt (st (ztake j (encs bs)) 0 hdr 0 el) off last).
-    destruct (loop_bnd bs j hdr el fuel Hbs Hj Hfuel)
-      as [(i' & hdr' & el' & H1 & H2)|(b2 & r2 & rs2 & bs2 & j2 & el2 & K1 & K2 & K3 & K4 & K5 & K6 & K7 & K8)].
+    assert (Hconc : conc (mkPos b [] bs j hdr off last el md lr) = BSt (st (ztake j (encs bs)) 0 hdr lr el) off last).
+    { unfold conc, concm, BSt. cbn [a_b a_rs a_bs a_j a_hdr a_off a_last a_el a_mode a_lr length Z.of_nat].
+      change (erecs b []) with (@nil N). cbn [app]. destruct md; reflexivity. }
+    rewrite Hconc.
+    destruct (loop_bnd bs j hdr lr el fuel Hbs Hj Hfuel)
+      as [(i' & hdr' & lr' & el' & H1 & H1' & H2)|(b2 & r2 & rs2 & bs2 & j2 & el2 & K1 & K2 & K3 & K4 & K5 & K6 & K7 & K8)].
     + rewrite H2.
       pose proof (msr_read_via_loop_err fuel off _ _ _ _ _ _ H1) as Hm.
       destruct (b1_of_short fuel _ _ _ _ _ off last _ _ _ _ _ Hm) as (b' & Hb1 & Hb2).
-      exists b'. split; [exact Hb1|]. rewrite Hb2. reflexivity.
+      exists b'. split; [exact Hb1|]. rewrite Hb2. unfold eoff0.
+      specialize (Hlr eq_refl).
+      destruct H1' as [E|[E1 E2]].
+      * rewrite E. reflexivity.
+      * subst lr' el'. destruct Hlr as [E|E]; [rewrite E; reflexivity|].
+        replace (el <? last) with false by lia. rewrite andb_false_r. reflexivity.
     + rewrite K6.
-      pose proof (msr_read_via_loop_ok fuel off _ _ _ _ _ _ _ _ _ K5 ltac:(lia)) as Hm.
+      assert (Hn2 : 0 < Z.of_nat (length (pb_recs b2))) by (rewrite K2; cbn [length]; lia).
+      pose proof (msr_read_via_loop_ok fuel off _ _ _ _ _ _ _ _ _ K5 Hn2) as Hm.
       rewrite (b1_same_msr fuel _ _ off last Hm).
       assert (Hincl : incl (r2 :: rs2) (pb_recs b2)) by (rewrite K2; apply incl_refl).
-      pose proof (b1_in fuel b2 r2 rs2 bs2 j2 off last el2 K1 Hincl K3) as Hb.
-      destruct (rec_step b2 r2 rs2 bs2 j2 off el2) as [r0 p'|f] eqn:Ers; [|exact Hb].
+      destruct (pb_codec b2 =? 0) eqn:Ec.
+      * (* uncompressed *)
+        assert (Hc0 : pb_codec b2 = 0) by lia.
+        assert (Hpl : payload b2 = erecs b2 (r2 :: rs2)) by (unfold payload; rewrite Hc0, K2; reflexivity).
+        assert (Hp : plen_of b2 = len (erecs b2 (r2 :: rs2))) by (unfold plen_of; rewrite Hpl; apply blen_len).
+        rewrite Hpl, Hp, K2. change (Z.of_nat (length (r2 :: rs2))) with (Z.of_nat (S (length rs2))).
+        pose proof (b1_in fuel b2 r2 rs2 bs2 j2 off last el2 K1 Hc0 Hincl K3) as Hb.
+        destruct (rec_step MPlain b2 r2 rs2 bs2 j2 off el2) as [r0 p'|f] eqn:Ers; [|exact Hb].
+        split; [exact Hb|].
+        destruct (pos_ok_after MPlain b2 r2 rs2 bs2 j2 off el2 r0 p' K1 Hincl K4 Hc0 Ers) as (P1 & P2 & P3).
+        split; [exact P1|]. split; [lia|lia].
+      * (* compressed *)
+        assert (Hc0 : pb_codec b2 <> 0) by lia.
+        pose proof (b1_pending fuel b2 r2 rs2 bs2 j2 off last el2 K1 Hc0 K2 K3) as Hb.
+        destruct (cstep b2 r2 rs2 bs2 j2 off el2) as [r0 p'|f] eqn:Ecs; [|exact Hb].
+        split; [exact Hb|].
+        destruct (cstep_inv _ _ _ _ _ _ _ _ _ Ecs) as [Hpj Ers].
+        destruct (pos_ok_after MInside b2 r2 rs2 bs2 (j2 - plen_of b2 + len (erecs b2 (r2 :: rs2))) off el2 r0 p' K1 Hincl K4
+                    ltac:(split; [exact Hc0|split; [rewrite K2; lia|lia]]) Ers) as (P1 & P2 & P3).
+        split; [exact P1|]. split; [lia|lia].
+  - (* records of the current batch are left *)
+    destruct (Hin ltac:(discriminate)) as (Hok & Hh & Hincl & Hmd). subst hdr. clear Hlr.
+    destruct md.
+    + (* read from the response *)
+      assert (Hconc : conc (mkPos b (r :: rs') bs j (hdr_of b) off last el MPlain lr)
+                      = BSt (st (ztake j (erecs b (r :: rs') ++ encs bs)) (Z.of_nat (S (length rs'))) (hdr_of b)
+                                (len (erecs b (r :: rs'))) el) off last) by reflexivity.
+      rewrite Hconc.
+      pose proof (b1_in fuel b r rs' bs j off last el Hok Hmd Hincl Hj) as Hb.
+      destruct (rec_step MPlain b r rs' bs j off el) as [r0 p'|f] eqn:Ers; [|exact Hb].
       split; [exact Hb|].
-      destruct (rec_step_inv _ _ _ _ _ _ _ _ _ Ers) as (E0 & E1 & E2 & E3 & E4 & E5 & E6 & E7 & _).
-      pose proof K7 as Hs1. pose proof K8 as Hs2.
-      split; [|split].
-      * unfold pos_ok. rewrite E1, E2, E3, E4, E6. split; [lia|]. split; [exact K4|].
-        intros _. split; [exact K1|]. split; [reflexivity|]. apply (incl_tail r2). exact Hincl.
-      * rewrite E2, E3. rewrite tokens_cons_rec in Hs1. lia.
-      * rewrite E3. cbn [a_bs]. lia.
-  - (* inside a batch *)
-    destruct (Hin ltac:(discriminate)) as (Hok & Hh & Hincl). subst hdr.
-    unfold conc. cbn [a_b a_rs a_bs a_j a_hdr a_off a_last a_el].
-    fold (BSt (st (ztake j (erecs b (r :: rs') ++ encs bs)) (Z.of_nat (length (r :: rs'))) (hdr_of b)
-                  (len (erecs b (r :: rs'))) el) off last).
-    pose proof (b1_in fuel b r rs' bs j off last el Hok Hincl Hj) as Hb. cbn [length].
-    destruct (rec_step b r rs' bs j off el) as [r0 p'|f] eqn:Ers; [|exact Hb].
-    split; [exact Hb|].
-    destruct (rec_step_inv _ _ _ _ _ _ _ _ _ Ers) as (E0 & E1 & E2 & E3 & E4 & E5 & E6 & E7 & _).
-    split; [|split].
-    + unfold pos_ok. rewrite E1, E2, E3, E4, E6. split; [lia|]. split; [exact Hbs|].
-      intros _. split; [exact Hok|]. split; [reflexivity|]. apply (incl_tail r). exact Hincl.
-    + rewrite E2, E3. rewrite tokens_cons_rec. lia.
-    + rewrite E3. cbn [a_bs]. lia.
+      destruct (pos_ok_after MPlain b r rs' bs j off el r0 p' Hok Hincl Hbs Hmd Ers) as (P1 & P2 & P3).
+      split; [exact P1|]. split; [exact P2|exact P3].
+    + (* a compressed batch whose header was read *)
+      destruct Hmd as [Hc0 Hrs].
+      assert (Hconc : conc (mkPos b (r :: rs') bs j (hdr_of b) off last el MPending lr)
+                      = BSt (st (ztake j (payload b ++ encs bs)) (Z.of_nat (length (pb_recs b))) (hdr_of b) (plen_of b) el) off last).
+      { unfold conc, concm, BSt. cbn [a_b a_rs a_bs a_j a_hdr a_off a_last a_el a_mode a_lr]. rewrite Hrs. reflexivity. }
+      rewrite Hconc.
+      pose proof (b1_pending fuel b r rs' bs j off last el Hok Hc0 (eq_sym Hrs) Hj) as Hb.
+      destruct (cstep b r rs' bs j off el) as [r0 p'|f] eqn:Ecs; [|exact Hb].
+      split; [exact Hb|].
+      destruct (cstep_inv _ _ _ _ _ _ _ _ _ Ecs) as [Hpj Ers].
+      destruct (pos_ok_after MInside b r rs' bs (j - plen_of b + len (erecs b (r :: rs'))) off el r0 p' Hok Hincl Hbs
+                  ltac:(split; [exact Hc0|split; [rewrite <- Hrs; lia|lia]]) Ers) as (P1 & P2 & P3).
+      split; [exact P1|]. split; [exact P2|exact P3].
+    + (* read from the decompressed payload *)
+      destruct Hmd as (Hc0 & Hlen & Hfit).
+      assert (Hconc : conc (mkPos b (r :: rs') bs j (hdr_of b) off last el MInside lr)
+                      = BSt (inside_m b (r :: rs') bs j el) off last) by reflexivity.
+      rewrite Hconc.
+      pose proof (b1_inside fuel b r rs' bs j off last el Hok Hc0 Hincl Hlen Hfit) as Hb.
+      destruct (rec_step MInside b r rs' bs j off el) as [r0 p'|f] eqn:Ers; [|contradiction].
+      split; [exact Hb|].
+      destruct (pos_ok_after MInside b r rs' bs j off el r0 p' Hok Hincl Hbs
+                  ltac:(split; [exact Hc0|split; [lia|exact Hfit]]) Ers) as (P1 & P2 & P3).
+      split; [exact P1|]. split; [exact P2|exact P3].
 Qed.
 
 (* ---------------------------------------------------------------- Batch.ReadMessage and the run *)
